@@ -1,0 +1,43 @@
+//go:build verif
+
+package netceptor
+
+// VerifNodeInfo is the accepted (epoch, sequence) of one origin.
+type VerifNodeInfo struct {
+	Epoch    uint64
+	Sequence uint64
+}
+
+// VerifState is a read-only copy of protocol state that Status() does not expose.
+type VerifState struct {
+	Epoch       uint64
+	Sequence    uint64
+	KnownNodes  map[string]VerifNodeInfo
+	SeenUpdates []string
+	Listeners   []string
+}
+
+// VerifSnapshot returns a read-only copy of internal protocol state for the verification harness.
+func (s *Netceptor) VerifSnapshot() VerifState {
+	vs := VerifState{Epoch: s.epoch, KnownNodes: map[string]VerifNodeInfo{}}
+	s.sequenceLock.RLock()
+	vs.Sequence = s.sequence
+	s.sequenceLock.RUnlock()
+	s.knownNodeLock.RLock()
+	for k, v := range s.knownNodeInfo {
+		vs.KnownNodes[k] = VerifNodeInfo{Epoch: v.Epoch, Sequence: v.Sequence}
+	}
+	s.knownNodeLock.RUnlock()
+	s.seenUpdatesLock.RLock()
+	for k := range s.seenUpdates {
+		vs.SeenUpdates = append(vs.SeenUpdates, k)
+	}
+	s.seenUpdatesLock.RUnlock()
+	s.listenerLock.RLock()
+	for k := range s.listenerRegistry {
+		vs.Listeners = append(vs.Listeners, k)
+	}
+	s.listenerLock.RUnlock()
+
+	return vs
+}
